@@ -81,6 +81,8 @@ var vQSpecials = []string{
 	"Document3", "Document1 | Document1", ".Individuals | Only(?)", "First(1)", "{ a: { b: { c: ? } } }",
 	".Individuals | .Nodes | {a: .Tag} | .a", ".Individuals | .Nodes | {a: .Tag} | Only(.a = \"x\")", ".Individuals | .Nodes | .Tag = \"NAME\" | .Foo",
 	".Individuals | .Families | .Pointer = \"F1\" | Only(. = true)", ".Individuals | .Nodes | {a: .Tag} | Combine(., .)", ".Individuals | .Nodes | {a: .Tag} | Last(1) | {b: .a} | ?",
+	"X is X; X is 1; X", "X is 1; X is X; X", "A is B; B is A; B is .Individuals; A | Length", "N is First(N); N is 1; .Individuals | First(N)", "O is {o: O}; O is 2; O",
+	"X is Y; Y is 1; Y is X; X", "X is .Individuals; X is X | Length; X",
 	".Individuals | { n: .Name | Undefined }", ".Individuals | Only(.Name | .String = ) ", ") (", "\"", "| |", "X is ;", ";;;",
 }
 
@@ -206,4 +208,27 @@ func VerifC15_Arguments(cs int) {
 		VsClassSet(o.where + ":" + vQMsgClass(o.panicMsg))
 	}
 	VsAssert("ill-typed-argument-returns-a-value-or-an-error", !o.panicked)
+}
+
+var vQVarNames = []string{"X", "Y"}
+var vQVarBodies = []string{"X", "Y", "1", ".Individuals", "{a: X}", "First(Y)", "X | Length", "Y = 1", "Combine(X, Y)"}
+
+// VerifC15_Variables: every program of 1..3 variable definitions over two names (so that names are
+// defined twice, before or after their use, with cycles through any definition) followed by a use:
+// "V is E; V is E; V is E; V". cs%3+1 statements; names and bodies by choice (9 bodies).
+func VerifC15_Variables(cs int) {
+	n := cs%3 + 1
+	query := ""
+	for i := 0; i < n; i++ {
+		query += vQVarNames[VsChoose("name", len(vQVarNames))] + " is " + vQVarBodies[VsChoose("body", len(vQVarBodies))] + "; "
+	}
+	query += []string{"X", "Y", ".Individuals | First(X)", "X | Y"}[VsChoose("use", 4)]
+	o := vQRun(query, vQDocs(0))
+	VsObserve(query)
+	VsObserve(o.panicked)
+	VsReach("variable-program-evaluated")
+	if o.panicked {
+		VsClassSet(o.where + ":" + vQMsgClass(o.panicMsg))
+	}
+	VsAssert("variable-program-returns-a-value-or-an-error", !o.panicked)
 }
